@@ -171,7 +171,15 @@ func (e *Engine) access(fc *fnCtx, st *state, in ssa.Instruction, av AV, refType
 		ev.atomic = atomicOp
 		k := fmt.Sprintf("%p|%s|%v|%s", in, slot, write, t.P)
 		if old, ok := fc.accesses[k]; !ok || old.held > ev.held {
+			if ok && old.sites != nil {
+				ev.sites = old.sites
+			} else {
+				ev.sites = map[int]bool{}
+			}
+			ev.sites[h.site] = true
 			fc.accesses[k] = ev
+		} else {
+			old.sites[h.site] = true
 		}
 		if ev.exempt == "" && atomicOp {
 			if h.mode < ev.need {
@@ -605,6 +613,10 @@ func (e *Engine) instr(fc *fnCtx, st *state, in ssa.Instruction, sum *summary, e
 				if sum.rets[i].union(filterFor(r.Type(), fc.val(r))) {
 					*grew = true
 				}
+				if sum.data == nil {
+					sum.data = AV{}
+				}
+				sum.data.union(filterFor(r.Type(), fc.val(r)))
 				// implicit flow: which Return executes is decided by tainted branches
 				if sum.rets[i].union(fc.implicit(x.Block())) {
 					*grew = true
